@@ -83,8 +83,9 @@ def units():
          ensures={"reset_empties": "$0->dataBuf.n == 0 && %s.numItems == 0 && %s.ptr == 0" % (OA, OA)})
     U.fn("oa_reset_ptr", assigns=["*$0"], frees=["$0->dataBuf.b"], pre_call=self_owned("o_@0"), requires=[VEC_OK("$0->dataBuf"), "$2 <= %d" % MAXN, "$2 == 0 || __CPROVER_r_ok($1, $2 * sizeof(int))"],
          ensures={"size_is_requested": "$0->dataBuf.n == $2", "exposed_view_is_own_buffer": OA_INV})
-    U.fn("oa_resize", assigns=["*$0"], frees=["$0->dataBuf.b"], pre_call=self_owned("o_@0"), requires=[VEC_OK("$0->dataBuf")], single=["val"],
-         ensures={"size_is_requested": "$0->dataBuf.n == $1", "exposed_view_is_own_buffer": OA_INV})
+    U.fn("oa_resize", assigns=["*$0"], frees=["$0->dataBuf.b"], pre_call=self_owned("o_@0"), requires=[VEC_OK("$0->dataBuf"), "__verif_exc == 0"], single=["val"],
+         ensures={"size_is_requested": "IMP(__verif_exc == 0, $0->dataBuf.n == $1)", "resize_within_max_size_succeeds": "IMP($1 <= %d, __verif_exc == 0)" % MAXN,
+                  "exposed_view_is_own_buffer": OA_INV})
     # ---------------- FixedArray<uint8_t>
     FA = "$0->__base_AbstractArray_uchar"
     FA_INV = "(%s.ptr == (%s.numItems > 0 ? $0->array.p : (unsigned char *)0))" % (FA, FA)
@@ -117,7 +118,7 @@ def units():
     # DataView<int>
     U.fn("dv_ctor", assigns=["*$0"], noalias=True, nullable=["_data"], ptr_requires=True, ensures={"view_remembers_base_and_stride": "$0->ptr == (unsigned char *)$1 && $0->stride == $2"})
     U.fn("dv_reset", assigns=["*$0"], nullable=["_data"], ensures={"view_remembers_base_and_stride": "$0->ptr == (unsigned char *)$1 && $0->stride == $2"})
-    U.fn("dv_index", requires=["$0->stride <= 4096 && $1 <= 4096"], flags=["--no-pointer-check"], ensures={"index_reads_at_byte_offset_i_times_stride": "(unsigned char *)RET == $0->ptr + $1 * $0->stride"})
+    U.fn("dv_index", requires=["$0->stride <= 64 && $1 <= 65535"], flags=["--no-pointer-check"], ensures={"index_reads_at_byte_offset_i_times_stride": "(unsigned char *)RET == $0->ptr + $1 * $0->stride"})
     return [U]
 
 
